@@ -70,12 +70,65 @@ def run(ctx, rep):
     rep.floor("R3.2", 7)
     from props import c03_mir, c11
     c03_mir.run(ctx, rep)
+    mal_set_discipline(ctx, rep)
     # the variable text tail is padded by helper arithmetic: its length rules (exact width / bounded and a multiple of the
     # alignment) are C11's R11.3; R11.4 (terminator) is not part of this property
     before = len(rep.instances)
     c11.length_domain(ctx, rep)
     rep.instances[before:] = [i for i in rep.instances[before:] if i["rule"] == "R11.3"]
     rep.floors.pop("R11.4", None)
+
+
+def mal_set_discipline(ctx, rep):
+    """R3.6: the IS_MAL writer traps on anything but Vehicle::Mod in its set (an `unreachable!` arm, reviewed in the panic
+    inventory on the ground that only Mod values ever enter the set).  That ground, mechanically: the field is private, and every
+    call that adds to a set of vehicles inside the module adds either a literal Vehicle::Mod(..) or a value it has just matched
+    as Mod; no other set-filling call (extend, from_iter, replace ..) occurs in the module."""
+    import re
+    from mirq import callee, strip_refs, fmt_origin
+    ent = ctx.ast.one("Mal", kinds=("Struct",), crate="insim")
+    if ent is None:
+        rep.fail("R3.6", "Mal:found", "struct Mal not found")
+        return
+    fld = [f for f in ent[3].get("fields", []) if f["name"] == "allowed_mods"]
+    rep.check("R3.6", "Mal.allowed_mods:private", len(fld) == 1 and not (fld[0].get("vis") or "").strip(),
+              "Mal.allowed_mods must stay private: the writer traps on non-Mod entries, so no code outside the module may fill the set", ctx.loc(ent, fld[0]["ln"] if fld else None))
+    en = ctx.mir.enums.get("insim_core::vehicle::Vehicle")
+    mod_idx = next((v["idx"] for v in (en or {}).get("variants", []) if v["name"] == "Mod"), None)
+    n = 0
+    for name in sorted(ctx.mir.bodies):
+        if not (name.startswith("insim::insim::mal::") or name.startswith("<insim::insim::mal::")) or name.endswith("#promoted") or "::tests::" in name:
+            continue
+        b = ctx.mir.body(name)
+        if b is None:
+            continue
+        for bb, t in b.calls():
+            d, rd, ga, _f = callee(t)
+            d = d or ""
+            gtxt = " ".join(str(x) for x in (ga or []))
+            if "Vehicle" not in gtxt or not re.search(r"IndexSet|HashSet|BTreeSet", d + " " + gtxt):
+                continue
+            meth = d.split("::")[-1]
+            if meth in ("insert", "insert_full", "replace", "replace_full", "insert_sorted", "shift_insert", "insert_before"):
+                n += 1
+                o = strip_refs(b.origin(t["args"][1]))
+                ok = o[0] == "agg" and o[1][0] == "adt" and str(o[1][1]).endswith("vehicle::Vehicle") and o[1][3] == "Mod"
+                how = "literal Vehicle::Mod"
+                if not ok and mod_idx is not None:
+                    # a value matched as Mod on every path to the call
+                    for sbb, targets, otherwise, so in b.switch_on(lambda x: x[0] == "discr" and strip_refs(x[1]) == o):
+                        mt = targets.get(mod_idx)
+                        if mt is not None and mt != otherwise and bb not in b.reach(0, avoid_edges={(sbb, mt)}):
+                            ok = True
+                            how = "matched as Mod before the call"
+                rep.check("R3.6", "%s:%s:%d" % (name.split("::")[-1], meth, n), ok,
+                          "%s adds %s to a set of vehicles: only Vehicle::Mod may enter the IS_MAL set (the writer traps on anything else)" % (name, fmt_origin(o)[:80]), b.loc(t["line"]),
+                          sample={"function": name, "value": fmt_origin(o)[:80], "why": how if ok else None})
+            elif meth in ("extend", "from_iter", "append", "union", "extend_from_slice", "splice", "from"):
+                n += 1
+                rep.check("R3.6", "%s:%s:%d" % (name.split("::")[-1], meth, n), False,
+                          "%s fills a set of vehicles with %s: not decidable that only Vehicle::Mod enters" % (name, meth), b.loc(t["line"]))
+    rep.floor("R3.6", 3)
 
 
 def count_rule(ctx, rep, key, lay, x, es, header, maxlen, loc):
